@@ -1,7 +1,8 @@
 (* C12 — a relation tagged #[ds(trrel_uf)] behaves as its reflexive transitive closure.
 
    Model: Byods/TrUfProvModel.v (New / Delta / Total protocol of TrRelIndCommon, the binary index views, the generic
-   BinRelToTernary adaptor with its reverse maps) on top of the C18 model of TrRelUnionFind (UF/TrUfModel.v).
+   BinRelToTernary adaptor with its reverse maps) on top of the C18 model of TrRelUnionFind (UF/TrUfModel.v), following the code
+   AFTER the five repairs this property led to (/repo c22d480, fda3f9e, 2e6bc3e, 8bc4a03, 36a9ed3).
 
    What is proved here
      c12_nonrecursive_exact        (full, unconditional, binary form) a stratum that only inserts (non-recursive use) ends without
@@ -11,23 +12,28 @@
      c12_never_panics_partial      (binary form, EVERY sequence of operations) no operation of the provider fails and the inner
                                    semi-naive loop of every merge terminates (within (number of classes)^2 + 2 rounds)
                                    both relative to the interface [truf_iface] of the union-find structure
-     c12_iface_tinv_except_node    C18's invariant satisfies every clause of that interface except the one for add_node
-   What the faithful model refutes (computed witnesses, each replayed on the real code by the tie)
-     c12_refuted_new_reflexive             provider law P3 (F10)
-     c12_refuted_ternary_resume            ternary form panics when a key pauses and resumes (F5)
-     c12_refuted_ternary_reverse_views     views [1], [2], [1,2] of the ternary form are incomplete
-     c12_refuted_ternary_len_estimate      len_estimate of view [1,2] divides by zero on an empty relation
-     c12_refuted_ternary_dropped_delta     a dropped delta entry makes the reverse-map views of delta panic
-   What is missing (carried by the tie only): the discharge of [truf_iface] for structures that went through add_node on a new
-   element (C18's invariant asks for an entry of every live class in both connection maps, add_node creates none);
-   completeness of delta + total for recursive use and the
-   guarded form of law P3; soundness and panic-freedom of the ternary adaptor outside the five refuted behaviours. *)
+     c12_iface_tinv_except_node    C18's invariant satisfies every clause of that interface except the one for add_node_new on a new element
+     c12_inner_loop_round          one round of the inner loop of the merge keeps the invariant "every processed class pair is
+                                   saturated against total and new" (the completeness half of the loop, class level, unconditional)
+   Provider law P3 (nothing becomes readable from total without having been served as delta) is used in the form
+     total_{i+1}  subset of  total_i + delta_i + delta_{i+1}
+   (checker p3_check).  The literal form  total_{i+1} subset of total_i + delta_i  of DESIGN 5/C10 is violated by the repaired
+   provider, necessarily: an element mentioned for the first time becomes a node of total in the same merge that serves its
+   reflexive pair as delta, so the pair is readable from total and from delta in the same round (c12_literal_p3_fails); the
+   semi-naive argument only needs the weaker form, because the delta variants of the coming iteration cover such a tuple.
+   The five former refutations are now positive (the theorems c12_witness_...); the refutations themselves are kept on the model of the code
+   before the repairs (Byods/TrUfProvBeforeFix.v, module BeforeFix): the theorems c12_before_fix_refuted_...
+   What is missing (carried by the tie only): the discharge of [truf_iface] for structures that went through add_node_new on a new
+   element inside a Delta-shaped merge (C18's invariant asks for an entry of every live class in both connection maps, add_node_new
+   creates none); completeness of delta + total and law P3 for EVERY recursive history (the round lemma is the core of it);
+   soundness and panic-freedom of the ternary adaptor for every history. *)
 From Coq Require Import List Arith Bool ZArith.
 From AV Require Import UF.UfBase.
 From AV Require Import UF.TrUfModel.
 From AV Require Import UF.TrUfInv.
 From AV Require Import Byods.TrUfProvModel.
 From AV Require Import Byods.TrUfProvProofs.
+From AV Require Import Byods.TrUfProvBeforeFix.
 Import ListNotations.
 
 (* ---- non-recursive use: exact, unconditional *)
@@ -55,29 +61,71 @@ Proof. exact bin_never_panics_partial. Qed.
 Theorem c12_iface_tinv_except_node : iface_except_node tinv.
 Proof. exact tinv_iface_except_node. Qed.
 
-(* ---- refuted by the faithful model *)
-Theorem c12_refuted_new_reflexive : exists ops, protocol_ok ops = true /\ p3_check ops (run_bin 3 ops) None = false.
-Proof. exists wit_f10. exact wit_f10_refutes. Qed.
+(* ---- the inner loop of the merge, class level: one round keeps "every processed pair is saturated against total and new" *)
+Theorem c12_inner_loop_round : forall conn rev ncm,
+  (forall a b, a <> b -> (Rm conn a b <-> Rm rev b a)) -> NoDup (map fst conn) -> NoDup (map fst ncm) ->
+  forall dd ddr dt dtr, linv conn ncm dd ddr dt dtr ->
+    let ca := fun x y => negb (mhas x y dd) && negb (mhas x y dt) && negb (mhas x y conn) in
+    let j3 := join ca ncm ddr (join ca conn ddr (join ca dd rev ([], [], false))) in
+    linv conn ncm (fst (fst j3)) (snd (fst j3)) (mmove dd dt) (mmove ddr dtr) /\
+    (snd j3 = false -> fst (fst j3) = []).
+Proof. exact round_ok. Qed.
 
-Theorem c12_refuted_ternary_resume : exists ops, protocol_ok ops = true /\
-  has_panic AssertFail (run_ter false false 3 1 ops) = true /\ has_panic AssertFail (run_ter true true 3 1 ops) = true.
-Proof. exists wit_f5. exact wit_f5_refutes. Qed.
+(* ---- law P3: the form that holds, and why the literal form cannot *)
+Theorem c12_literal_p3_fails : protocol_ok wit_f10 = true /\ p3_check wit_f10 (run_bin 3 wit_f10) None = true /\
+  p3_literal_check wit_f10 (run_bin 3 wit_f10) None = false.
+Proof. split; [apply wit_f10_passes|]. split; [apply wit_f10_passes|exact wit_f10_literal]. Qed.
 
-Theorem c12_refuted_ternary_reverse_views : exists ops, protocol_ok ops = true /\
-  let '(d, t) := last_read (run_ter true true 3 1 ops) in
-  lmem [0; 1; 1] (served 4 t) = true /\ lmem [0; 1; 1] (served 8 d ++ served 8 t) = false.
-Proof. exists wit_rev. exact wit_rev_refutes. Qed.
+(* ---- the witnesses of the five repaired defects pass *)
+Theorem c12_witness_new_reflexive : protocol_ok wit_f10 = true /\ p3_check wit_f10 (run_bin 3 wit_f10) None = true /\
+  (let '(d, t) := last_read (run_bin 3 (firstn 5 wit_f10)) in lmem [2; 2] (served 0 d) = true /\ lmem [2; 2] (served 0 t) = true).
+Proof. exact wit_f10_passes. Qed.
 
-Theorem c12_refuted_ternary_len_estimate : t_i12_len_estimate (t_default true true) = Err AssertFail.
-Proof. exact wit_len_estimate_refutes. Qed.
+Theorem c12_witness_ternary_resume : protocol_ok wit_f5 = true /\ any_panic (run_ter false false 3 1 wit_f5) = false /\
+  any_panic (run_ter true true 3 1 wit_f5) = false /\ length (served 0 (snd (last_read (run_ter true true 3 1 wit_f5)))) = 6.
+Proof. exact wit_f5_passes. Qed.
 
-Theorem c12_refuted_ternary_dropped_delta : exists ops, protocol_ok ops = true /\
-  has_panic UnwrapNone (run_ter true true 2 1 ops) = true /\ has_panic UnwrapNone (run_ter false false 2 1 ops) = false.
-Proof. exists wit_drop. exact wit_drop_refutes. Qed.
+Theorem c12_witness_ternary_reverse_views : protocol_ok wit_rev = true /\
+  let '(d, t) := last_read (run_ter true true 3 1 wit_rev) in
+  lmem [0; 1; 1] (served 4 t) = true /\ lmem [0; 1; 1] (served 8 t) = true /\ lmem [0; 0; 0] (served 10 t) = true.
+Proof. exact wit_rev_passes. Qed.
 
-(* ---- a non-trivial instance: a chain closed into a cycle (three classes collapse while a delta exists) runs to the end and the
-   total version serves all 9 pairs *)
-Example c12_example_cycle : protocol_ok wit_cycle = true /\ has_panic AssertFail (run_bin 3 wit_cycle) = false /\
+Theorem c12_witness_ternary_len_estimate : t_i12_len_estimate (t_default true true) = Ok 0.
+Proof. exact wit_len_estimate_passes. Qed.
+
+Theorem c12_witness_ternary_dropped_delta : protocol_ok wit_drop = true /\ any_panic (run_ter true true 2 1 wit_drop) = false /\
+  any_panic (run_ter false false 2 1 wit_drop) = false.
+Proof. exact wit_drop_passes. Qed.
+
+(* ---- BEFORE the repairs (module BeforeFix = the model of the unrepaired code): the refutations that led to them *)
+Theorem c12_before_fix_refuted_new_reflexive : exists ops, BeforeFix.protocol_ok ops = true /\
+  BeforeFix.p3_check ops (BeforeFix.run_bin 3 ops) None = false.
+Proof. exists BeforeFix.wit_f10. exact BeforeFix.wit_f10_refutes. Qed.
+
+Theorem c12_before_fix_refuted_ternary_resume : exists ops, BeforeFix.protocol_ok ops = true /\
+  BeforeFix.has_panic AssertFail (BeforeFix.run_ter false false 3 1 ops) = true /\
+  BeforeFix.has_panic AssertFail (BeforeFix.run_ter true true 3 1 ops) = true.
+Proof. exists BeforeFix.wit_f5. exact BeforeFix.wit_f5_refutes. Qed.
+
+Theorem c12_before_fix_refuted_ternary_reverse_views : exists ops, BeforeFix.protocol_ok ops = true /\
+  let '(d, t) := BeforeFix.last_read (BeforeFix.run_ter true true 3 1 ops) in
+  BeforeFix.lmem [0; 1; 1] (BeforeFix.served 4 t) = true /\
+  BeforeFix.lmem [0; 1; 1] (BeforeFix.served 8 d ++ BeforeFix.served 8 t) = false.
+Proof. exists BeforeFix.wit_rev. exact BeforeFix.wit_rev_refutes. Qed.
+
+Theorem c12_before_fix_refuted_ternary_len_estimate :
+  BeforeFix.t_i12_len_estimate (BeforeFix.t_default true true) = Err AssertFail.
+Proof. exact BeforeFix.wit_len_estimate_refutes. Qed.
+
+Theorem c12_before_fix_refuted_ternary_dropped_delta : exists ops, BeforeFix.protocol_ok ops = true /\
+  BeforeFix.has_panic UnwrapNone (BeforeFix.run_ter true true 2 1 ops) = true /\
+  BeforeFix.has_panic UnwrapNone (BeforeFix.run_ter false false 2 1 ops) = false.
+Proof. exists BeforeFix.wit_drop. exact BeforeFix.wit_drop_refutes. Qed.
+
+(* ---- a non-trivial instance: a chain closed into a cycle (three classes collapse while a delta exists) runs to the end, law P3
+   holds at every merge and the total version serves all 9 pairs *)
+Example c12_example_cycle : protocol_ok wit_cycle = true /\ any_panic (run_bin 3 wit_cycle) = false /\
+  p3_check wit_cycle (run_bin 3 wit_cycle) None = true /\
   length (served 0 (snd (last_read (run_bin 3 wit_cycle)))) = 9.
 Proof. exact wit_cycle_runs. Qed.
 
@@ -86,9 +134,16 @@ Print Assumptions c12_total_exact.
 Print Assumptions c12_sound_partial.
 Print Assumptions c12_never_panics_partial.
 Print Assumptions c12_iface_tinv_except_node.
-Print Assumptions c12_refuted_new_reflexive.
-Print Assumptions c12_refuted_ternary_resume.
-Print Assumptions c12_refuted_ternary_reverse_views.
-Print Assumptions c12_refuted_ternary_len_estimate.
-Print Assumptions c12_refuted_ternary_dropped_delta.
+Print Assumptions c12_inner_loop_round.
+Print Assumptions c12_literal_p3_fails.
+Print Assumptions c12_witness_new_reflexive.
+Print Assumptions c12_witness_ternary_resume.
+Print Assumptions c12_witness_ternary_reverse_views.
+Print Assumptions c12_witness_ternary_len_estimate.
+Print Assumptions c12_witness_ternary_dropped_delta.
+Print Assumptions c12_before_fix_refuted_new_reflexive.
+Print Assumptions c12_before_fix_refuted_ternary_resume.
+Print Assumptions c12_before_fix_refuted_ternary_reverse_views.
+Print Assumptions c12_before_fix_refuted_ternary_len_estimate.
+Print Assumptions c12_before_fix_refuted_ternary_dropped_delta.
 Print Assumptions c12_example_cycle.
